@@ -109,17 +109,30 @@ def replay(rp):
             print('precondition %r not evaluable (%s)' % (txt, e))
             return 0
     import copy
+    # building the call is the replay's own business: a failure here says nothing about the real function
     try:
         if c.get('replay_call'):
             # methods: the contract says how to build the receiver from the model values
-            res = eval(c['replay_call'])(mod, copy.deepcopy(inputs))
+            caller = eval(c['replay_call'])
+            thunk = lambda: caller(mod, copy.deepcopy(inputs))
         else:
             call_args = [copy.deepcopy(inputs[a]) for a, t in c['args'].items() if t != 'kwargs']
-            res = f(*call_args)
+            thunk = lambda: f(*call_args)
+    except Exception as e:
+        print('REPLAY-ERROR: the call cannot be built from the model (%s: %s): NOT-REPRODUCED' % (type(e).__name__, e))
+        return 0
+    try:
+        res = thunk()
     except Exception as e:
         print('REPRODUCED: real function raises %s: %s (contract allows no exception here)' % (type(e).__name__, e))
         return 1
     ns['result'] = res
+    # locals of the function that an ensures clause names (results of its callee calls), recomputed natively
+    for name, expr in c.get('replay_locals', {}).items():
+        try:
+            ns[name] = eval(expr, dict(ns, geomdl=importlib.import_module('geomdl'), helpers=importlib.import_module('geomdl.helpers')))
+        except Exception as e:
+            print('replay local %s not computable natively (%s: %s)' % (name, type(e).__name__, e))
     bad = []
     for k, txt in enumerate(c.get('ensures', [])):
         try:
